@@ -29,7 +29,7 @@ CURVES = ["p192", "p224", "p256", "p384", "p521", "ed25519", "ed448", "curve2551
 WS = CURVES[:5]
 OP_KINDS = ["hash_copy", "hash_copy", "cipher", "cipher", "ec", "ec", "ec", "ecdsa", "ecdsa", "eddsa", "eddsa", "rsa", "modexp", "kdf", "shamir",
             "gc", "ecdh", "import_key", "cmac_copy", "hmac_copy", "xof", "point_ops", "generate", "dsa", "primality", "bcrypt", "export_import",
-            "poly1305", "pkcs1_v15", "hash_all", "hash_all", "mac_verify", "big_gcm", "strxor"]
+            "poly1305", "pkcs1_v15", "hash_all", "hash_all", "mac_verify", "big_gcm", "strxor", "pair_big", "pair_big"]
 
 
 def dg(*xs):
@@ -97,10 +97,17 @@ class Machine(object):
                 k = rng.choice(OP_KINDS)
                 if curve_focus and rng.random() < 0.7:
                     k = rng.choice(["ec", "ecdsa", "eddsa", "ecdh", "import_key", "point_ops", "generate"])
+                if rng.random() < 0.002:
+                    k = "huge_copy"        # half a gigabyte through one object, then copy(): rare, it costs seconds
                 s = rng.randrange(1 << 30)
                 curve = curve_focus or rng.choice(CURVES)
                 ops.append([k, s, curve, rng.randrange(64)])
             programs.append(ops)
+        if rng.random() < 0.12:
+            # several threads make the first use of ONE private key object (its public point is computed lazily)
+            sk = [rng.randrange(1 << 30), rng.choice(CURVES)]
+            for ops in programs:
+                ops.insert(rng.randrange(len(ops) + 1), ["shared_key", sk[0], sk[1], rng.randrange(64)])
         sched = {"line_k": rng.choice([3, 10, 40, 150, 600, 3000]), "c_k": rng.choice([0, 50, 300, 2000, 20000, 200000]),
                  "p_switch": rng.choice([0.1, 0.3, 0.6, 1.0]), "native_p": rng.choice([0.0, 0.1, 0.5, 1.0]), "seed": rng.randrange(1 << 30),
                  "max_switches": rng.choice([6, 25, 25, 100, 100, 400])}
@@ -109,6 +116,8 @@ class Machine(object):
             sched["c_k"] = rng.choice([30, 100, 300, 300, 1000])
             sched["max_switches"] = rng.choice([100, 400, 400, 1000])
             sched["p_switch"] = rng.choice([0.6, 1.0])
+        if any(op[0] == "huge_copy" for ops in programs for op in ops):
+            sched["c_k"] = rng.choice([0, 200000])       # eight million compression calls: no dense pre-emption inside them
         return {"programs": programs, "sched": sched, "ops": []}
 
     SHRINK_FIELDS = ("programs",)
@@ -128,6 +137,7 @@ class Machine(object):
                 self.exec_program(programs[i], idx, results[i])
             return prog
         entropy.reset_stream("run%d" % sc["seed"])
+        self._make_shared(programs)
         sched = S.Sched(Rng(sc["seed"]), self.prefix, line_k=sc["line_k"], c_k=sc["c_k"] if self.inst else 0,
                         p_switch=sc["p_switch"], native_p=sc["native_p"], max_switches=sc.get("max_switches", 400))
         ok = sched.run([make(i) for i in range(nt)], wall=120)
@@ -153,6 +163,7 @@ class Machine(object):
         entropy.reset_stream("run%d" % sc["seed"])
         for i in range(nt):
             solo = []
+            self._make_shared(programs)          # a fresh (never used) shared key for every solo run
             entropy.set_actor(i + 1)
             try:
                 self.exec_program(programs[i], i, solo)
@@ -180,6 +191,19 @@ class Machine(object):
                 if str(a).startswith("MUTATED"):
                     ctx.violate("inputs/mutated/%s" % a.split(":")[1], "a library call changed a caller-owned input even without concurrency: %s" % a,
                                 observed=a, expected="inputs unchanged")
+
+    def _make_shared(self, programs):
+        from Crypto.PublicKey import ECC
+        self.shared = {}
+        for ops in programs:
+            for op in ops:
+                if op[0] == "shared_key" and (op[1], op[2]) not in self.shared:
+                    seed, c = op[1], op[2]
+                    if c in WS:
+                        k = ECC.construct(curve=c, d=1 + seed)
+                    else:
+                        k = ECC.construct(curve=c, seed=data(seed, {"ed25519": 32, "ed448": 57, "curve25519": 32, "curve448": 56}[c]))
+                    self.shared[(seed, c)] = k
 
     def _say(self, a):
         a = str(a)
@@ -313,6 +337,12 @@ class Machine(object):
             self._same("point operand Q", qb, (int(Q.x), int(Q.y)))
             if eq != (True, True, True):
                 raise Mutated("group identities failed %s on %s" % (eq, c))
+            # the neutral element handed out to one caller is that caller's object: accumulating into it changes nobody else's
+            acc = P.point_at_infinity()
+            acc += Q
+            O2 = P.point_at_infinity()
+            if not (acc == Q and O2.is_point_at_infinity() and (O2 + P) == P and (int(P.x), int(P.y)) == before):
+                raise Mutated("point_at_infinity() is not a fresh neutral element on %s" % c)
             if kind == "point_ops":
                 S2 = R.copy()
                 S2 *= 3
@@ -572,6 +602,85 @@ class Machine(object):
             if a != b:
                 raise Mutated("two objects fed the same data disagree (%s)" % fam)
             return dg(a)
+        if kind == "shared_key":
+            # read-only use of a private key that other threads are using for the first time as well
+            from Crypto.PublicKey import ECC
+            k = self.shared[(seed, curve)]
+            pub = k.public_key()
+            out = [pub.export_key(format="DER")]
+            if curve in WS or curve in ("curve25519", "curve448"):
+                from Crypto.Protocol.DH import key_agreement
+                if curve in WS:
+                    peer = ECC.construct(curve=curve, d=77 + salt)
+                else:
+                    peer = ECC.construct(curve=curve, seed=data(salt, 32 if curve == "curve25519" else 56))
+                out.append(key_agreement(static_priv=k, static_pub=peer.public_key(), kdf=lambda x: x))
+                if curve in ("p256", "p384", "p521", "curve25519", "curve448") and salt & 1:
+                    from Crypto.Protocol import HPKE
+                    snd = HPKE.new(receiver_key=pub, aead_id=HPKE.AEAD.AES128_GCM, info=b"c19")
+                    ct = snd.seal(b"shared key")
+                    if HPKE.new(receiver_key=k, aead_id=HPKE.AEAD.AES128_GCM, enc=snd.enc, info=b"c19").unseal(ct) != b"shared key":
+                        raise Mutated("HPKE with a shared receiver key failed")
+            else:
+                from Crypto.Signature import eddsa
+                sig = eddsa.new(k, "rfc8032").sign(bytes(msg))
+                eddsa.new(pub, "rfc8032").verify(bytes(msg), sig)
+                out.append(sig)
+            if curve in WS + ["ed25519", "ed448"]:
+                out.append((int(k.pointQ.x), int(k.pointQ.y)))
+            else:
+                out.append(int(k.pointQ.x))
+            return dg(*out)
+        if kind == "huge_copy":
+            # a clone taken after 2^32 bits of input (where the bit counters of the 32-bit-word hashes carry) continues
+            # like the original; reference: hashlib
+            import hashlib
+            fam = ["SHA256", "SHA224", "SHA256", "SHA1"][salt % 4]
+            n = (1 << 29) + [0, 8, 64, 1000][(salt >> 2) % 4]
+            buf = F.huge_zeros(n)
+            h = F.mod(fam).new()
+            h.update(buf)
+            c = h.copy()
+            t1, t2 = data(seed, 100 + salt), data(seed + 1, 33)
+            h.update(t1)
+            c.update(t2)
+            c2 = c.copy()
+            r = hashlib.new(fam.lower())
+            r.update(buf)
+            r1, r2 = r.copy(), r.copy()
+            r1.update(t1)
+            r2.update(t2)
+            if (h.digest(), c.digest(), c2.digest()) != (r1.digest(), r2.digest(), r2.digest()):
+                raise Mutated("a copy() taken after half a gigabyte does not continue like the original (%s)" % fam)
+            return dg(h.digest(), c.digest())
+        if kind == "pair_big":
+            # two live objects of one family, several internal blocks / tree chunks each, updates interleaved in this thread
+            fams = ["KangarooTwelve", "KangarooTwelve", "TurboSHAKE128", "SHAKE256", "SHA256", "SHA512", "SHA3_256", "BLAKE2b", "BLAKE2s", "cSHAKE128",
+                    "KMAC128", "CMAC", "HMAC", "Poly1305", "MD5", "SHA1", "RIPEMD160", "keccak"]
+            fam = fams[salt % len(fams)]
+            cfg1 = F.gen_hash_cfg(Rng(seed), fam)
+            cfg2 = F.gen_hash_cfg(Rng(seed + 1), fam) if salt & 32 else cfg1
+            n1, n2 = 8192 + 1 + (seed % 20000), 8192 + 1 + ((seed >> 8) % 20000)
+            if fam != "KangarooTwelve":
+                n1, n2 = 700 + n1 % 3000, 700 + n2 % 3000
+            m1, m2 = data(seed + 5, n1), data(seed + 6, n2)
+            h1, h2 = F.make_hash(cfg1), F.make_hash(cfg2)
+            step1, step2 = 1 + (seed % 5000) + 3000 * (fam == "KangarooTwelve"), 1 + ((seed >> 4) % 5000) + 3000 * (fam == "KangarooTwelve")
+            i = j = 0
+            while i < n1 or j < n2:
+                if i < n1:
+                    h1.update(m1[i:i + step1]); i += step1
+                if j < n2:
+                    h2.update(m2[j:j + step2]); j += step2
+            e1, e2 = F.make_hash(cfg1), F.make_hash(cfg2)
+            e1.update(m1)
+            e2.update(m2)
+            x = F.is_xof(fam)
+            got = (h1.read(48), h2.read(48)) if x else (h1.digest(), h2.digest())
+            exp = (e1.read(48), e2.read(48)) if x else (e1.digest(), e2.digest())
+            if got != exp:
+                raise Mutated("two live %s objects updated in turn disagree with the same data hashed one object at a time" % fam)
+            return dg(got)
         if kind == "mac_verify":
             fam = ["HMAC", "CMAC", "KMAC128", "KMAC256", "Poly1305", "BLAKE2b", "BLAKE2s"][salt % 7]
             cfg = F.gen_hash_cfg(Rng(seed), fam)
